@@ -73,12 +73,15 @@ impl<K: AsRef<[u8]>, V> VecMap<K, V> {
         None
     }
 
-    pub fn insert(&mut self, k: K, v: V) -> Option<V> {
+    /// Unlike `HashMap::insert` the replaced value is not returned but leaked: no caller in
+    /// this crate looks at it, and returning it would put the recursive drop glue of the
+    /// logger tree on every insertion path of the model checker.
+    pub fn insert(&mut self, k: K, v: V) {
         if let Some(slot) = self.get_mut(&k) {
-            return Some(std::mem::replace(slot, v));
+            std::mem::forget(std::mem::replace(slot, v));
+            return;
         }
         self.entries.push((k, v));
-        None
     }
 
     pub fn values(&self) -> impl Iterator<Item = &V> {
